@@ -268,6 +268,11 @@ instance : Monad M where
   bind := M.bind'
 
 def liftR {α : Type} (r : Res α) : M α := fun s => (s, r)
+
+/-- `try: m` with the except clauses of function `fn` -/
+def tryM {α : Type} (fn : String) (m : M α) : M α := fun s =>
+  match m s with
+  | (s', r) => (s', catching fn r)
 def getSt : M St := fun s => (s, .ok s)
 
 /-- a change made to a loaded object: visible at once in `DictObjectStore` (the stored object itself is changed) -/
@@ -698,7 +703,7 @@ def postObj (fn : String) (loc : String → Loc) (r : Req) : M Resp := do
   let p ← liftR (requestBody fn r)
   match p with
   | .obj o =>
-    liftR (catching fn (← (fun s => match storeAdd o s with | (s', x) => (s', .ok x))))
+    tryM fn (storeAdd o)
     commitObj (commitsOf fn) o.id o
     pure (mkResp fn 0 r (some (loc o.id)) (fun st => .item (stripIf st (.obj o))))
   | _ => liftR (.py .unknownClass)
@@ -783,9 +788,9 @@ def listElems (ep : String) (a : Args) (r : Req) : M Resp := do
   let sm ← getObjTs a.smId .sm
   listPage ep r (sm.root.ch.map .elem)
 
-def getElem (ep : String) (a : Args) (r : Req) : M Resp := do
+def getElem (ep : String) (a : Args) (path : List String) (r : Req) : M Resp := do
   let sm ← getObjTs a.smId .sm
-  let e ← liftR (getNested sm.root (a.idShorts.getD []))
+  let e ← liftR (getNested sm.root path)
   pure (mkResp ep 0 r none (fun st => .item (stripIf st (.elem e))))
 
 def postElem (ep : String) (a : Args) (r : Req) : M Resp := do
@@ -803,9 +808,8 @@ def postElem (ep : String) (a : Args) (r : Req) : M Resp := do
         (fun st => .item (stripIf st (.elem (n.withKey (n.idShort.getD ""))))))
     | _ => liftR (.py .unknownClass)
 
-def putElem (ep : String) (a : Args) (r : Req) : M Resp := do
+def putElem (ep : String) (a : Args) (path : List String) (r : Req) : M Resp := do
   let sm ← getObjTs a.smId .sm
-  let path := a.idShorts.getD []
   let e ← liftR (getNested sm.root path)
   let p ← liftR (requestBody ep r)
   match p with
@@ -909,10 +913,14 @@ def handlerOf (ep : String) (a : Args) (r : Req) : Option (M Resp) :=
   | "delete_submodel" => some (deleteObj ep a.smId .sm r)
   | "get_submodel_submodel_elements" => some (listElems ep a r)
   | "get_submodel_submodel_elements_metadata" => some (listElems ep a r)
-  | "get_submodel_submodel_elements_id_short_path" => some (getElem ep a r)
-  | "get_submodel_submodel_elements_id_short_path_metadata" => some (getElem ep a r)
+  -- these routes always carry an `id_short_path` argument (`url_args["id_shorts"]`); without one the model makes no claim
+  | "get_submodel_submodel_elements_id_short_path" =>
+    (match a.idShorts with | some (x :: xs) => some (getElem ep a (x :: xs) r) | _ => none)
+  | "get_submodel_submodel_elements_id_short_path_metadata" =>
+    (match a.idShorts with | some (x :: xs) => some (getElem ep a (x :: xs) r) | _ => none)
   | "post_submodel_submodel_elements_id_short_path" => some (postElem ep a r)
-  | "put_submodel_submodel_elements_id_short_path" => some (putElem ep a r)
+  | "put_submodel_submodel_elements_id_short_path" =>
+    (match a.idShorts with | some (x :: xs) => some (putElem ep a (x :: xs) r) | _ => none)
   | "delete_submodel_submodel_elements_id_short_path" => some (deleteElem ep a r)
   | "get_submodel_submodel_element_qualifiers" => some (getQual ep a r)
   | "post_submodel_submodel_element_qualifiers" => some (postQual ep a r)
